@@ -292,11 +292,17 @@ func (b *batch) Flush() (map[uint64]harness.BatchVerdict, error) {
 				continue
 			}
 			tr := g.traces[k]
-			fails, outp, err := tlc.AssertionFails(g.sys, tr.States[len(tr.States)-1], as[0], as[1], filepath.Join(dir, "a"))
+			fails, _, err := tlc.AssertionFails(g.sys, tr, as[0], as[1], filepath.Join(dir, "a"))
+			if os.Getenv("VERIF_KEEP_TLC") != "" {
+				exec.Command("cp", "-r", filepath.Join(dir, "a"), os.Getenv("VERIF_KEEP_TLC")).Run()
+			}
 			os.RemoveAll(filepath.Join(dir, "a"))
 			if err != nil {
-				os.RemoveAll(dir)
-				return nil, fmt.Errorf("%s: assertion check: %v\n%s", key, err, tail(outp, 40))
+				// TLC could not evaluate the recorded state at all (e.g. a mailbox holding two
+				// responses whose "value" fields have different types, which TLC refuses to compare):
+				// the Go failure is not judged, neither way
+				fmt.Fprintf(os.Stderr, "C02: assertion failure of %s not judged, TLC could not evaluate the state: %v\n", key, err)
+				continue
 			}
 			if !fails {
 				out[idx] = harness.BatchVerdict{Rule: "go_assertion_" + g.sys.Name, Detail: fmt.Sprintf("%s (%s): %s; the specification's action %s(%s) does not fail an assertion in that state\n  state: %s", g.sys.Name, key, as[2], as[0], as[1], renderState(g.sys, tr.States[len(tr.States)-1]))}
